@@ -206,6 +206,26 @@ func runC01(s *Sim) {
 			deliveries = deliveries[n:]
 		}
 	}
+	// paired updates: two identities of one type (two entries of an array, say) written together with one time stamp and
+	// one value, and later updated together again: whole batches in which every point changes in the same way
+	for i, n := 0, wl.Draw(3); i < n; i++ {
+		tg := targets[wl.Draw(len(targets))]
+		typ := []string{"enabled", "value", "ab"}[wl.Draw(3)]
+		k1, k2 := []string{"0", "1", "a"}[wl.Draw(3)], []string{"2", "3", "b"}[wl.Draw(3)]
+		t1 := genTimeNs(wl)
+		t2 := t1 + int64(1+wl.Draw(1000))
+		if t2 < t1 {
+			t1, t2 = t1-2000, t1-1000
+		}
+		v1, v2 := float64(wl.Draw(3)), float64(3+wl.Draw(3))
+		for _, st := range []struct {
+			t int64
+			v float64
+		}{{t1, v1}, {t2, v2}} {
+			all = append(all, batch{Node: tg.node, Parent: tg.parent, Edge: tg.edge, Ack: true, Pts: data.Points{
+				{Type: typ, Key: k1, Time: time.Unix(0, st.t), Value: st.v}, {Type: typ, Key: k2, Time: time.Unix(0, st.t), Value: st.v}}})
+		}
+	}
 	// global shuffle so that creation and points interleave (points-first / edge-first)
 	for i := len(all) - 1; i > 0; i-- {
 		j := wl.Draw(i + 1)
